@@ -141,7 +141,7 @@ def set_owner_process(uid, gid, initgroups=False):
     """ set user and group of workers processes """
 
     if gid:
-        if uid:
+        if initgroups:
             try:
                 username = get_username(uid)
             except KeyError:
